@@ -111,6 +111,8 @@ type Gen struct {
 	owned      []string // references obtained from a pool in this activation (owned by it)
 	curIdx     int      // index in curBlock of the instruction being executed
 	needGomod      bool
+	regionLoop     *loopInfo // non-nil: only this loop is being verified (RunRegion)
+	genAlloc       map[string]string // havoc generation -> allocation counter at that point
 	pendingAsserts []Clause
 	pendingGhosts  []Clause
 	ghostVals      map[string]Val
@@ -240,9 +242,18 @@ func (g *Gen) heapRange(constName, heapName string) {
 		// every reference stored in this version of the heap was allocated before the version came to be:
 		// in particular nothing in the entry heap can alias an object allocated during the activation
 		lo = "0"
-		if strings.HasPrefix(constName, "|H0:") {
+		switch {
+		case strings.HasPrefix(constName, "|H0:"):
 			hi = g.allocTerm(g.heap0)
-		} else {
+		case strings.HasPrefix(constName, "|Hg"):
+			// a heap first mentioned after everything was havocked (generation g): its cells are as old as that point
+			hi = g.allocTerm(g.heap)
+			if i := strings.Index(constName, ":"); i > 3 {
+				if a, ok := g.genAlloc[constName[3:i]]; ok {
+					hi = a
+				}
+			}
+		default:
 			hi = g.allocTerm(g.heap)
 		}
 		if _, isIface := t.Underlying().(*types.Interface); isIface {
@@ -269,7 +280,13 @@ func (g *Gen) heapRange(constName, heapName string) {
 		idx = append(idx, v)
 	}
 	term := sel(constName, idx...)
-	g.emit(evAssert, fmt.Sprintf("(assert (forall (%s) (! (and (<= %s %s) (<= %s %s)) :pattern (%s) :qid hrange)))", strings.Join(binders, " "), lo, term, term, hi, term))
+	body := fmt.Sprintf("(and (<= %s %s) (<= %s %s))", lo, term, term, hi)
+	if isRefLike(t) {
+		// only cells of objects that exist in this heap version are constrained: the cells of objects allocated
+		// later (by a callee, say) are described by whoever allocates them
+		body = fmt.Sprintf("(=> (<= i0 %s) %s)", hi, body)
+	}
+	g.emit(evAssert, fmt.Sprintf("(assert (forall (%s) (! %s :pattern (%s) :qid hrange)))", strings.Join(binders, " "), body, term))
 }
 
 func (g *Gen) noteLeaf(heapName string, l Leaf, nidx int) {
@@ -733,6 +750,7 @@ func (g *Gen) writtenHeaps(blocks map[*ssa.BasicBlock]bool) (map[string]string, 
 	all := false
 	addLeaves := func(prefix string, t types.Type, nidx int) {
 		for _, l := range g.leaves(t) {
+			g.noteLeaf(prefix+l.Path, l, nidx)
 			names[prefix+l.Path] = g.heapSort(l.Sort, nidx)
 		}
 	}
